@@ -106,7 +106,7 @@ Qed.
 
 Lemma del_after_add_queries c m b kA kD :
   sorted m -> counters_wf m = true -> fresh c m b = true ->
-  exec_add c m b = Some kA -> exec_del c (write_all kA m) b = Some kD -> all_local_ok b = true ->
+  exec_add c m b = Some kA -> exec_del c (write_all kA m) b = Some kD ->
   let m2 := write_all kD (write_all kA m) in
   (forall h, q_tx m2 h = q_tx m h) /\
   (forall a, q_addr_txs m2 a = q_addr_txs m a) /\
@@ -117,14 +117,14 @@ Lemma del_after_add_queries c m b kA kD :
   (forall bh, q_total_fee m2 bh = q_total_fee m bh) /\
   q_mvcc_entries m2 = q_mvcc_entries m.
 Proof.
-  intros S W F EA ED G m2. apply obs_eq_queries.
+  intros S W F EA ED m2. apply obs_eq_queries.
   - apply write_all_sorted, write_all_sorted, S.
   - exact S.
-  - eapply del_after_add_partial; eassumption.
+  - eapply del_after_add_obs_id; eassumption.
 Qed.
 
-(** what holds whatever the receipts are: every index entry proper is restored exactly, and so
-    is every address counter *)
+(** exactly, not only up to [norm]: every index entry proper is restored, and so is every
+    address counter (the latter even when the block's index entries are not new) *)
 Lemma index_entries_exact c m b kA kD :
   sorted m -> fresh c m b = true ->
   exec_add c m b = Some kA -> exec_del c (write_all kA m) b = Some kD ->
@@ -149,7 +149,7 @@ Qed.
 
 (** * non-vacuity: every plugin on, a block at height 1 on top of a non-empty local DB with a
       transfer between two addresses that already have counters, a transaction without local
-      effect, and state writes *)
+      effect, a failed transfer (receipt ExecPack), and state writes *)
 Definition ex_cfg : cfg := mkCfg true true true true true true.
 Definition ex_S0 : list N := bs "state-hash-0"%string.
 Definition ex_S1 : list N := bs "state-hash-1"%string.
@@ -163,13 +163,14 @@ Definition ex_m : db :=
 Definition ex_b : blk :=
   mkBlk 1 100 (bs "B1"%string) (bs "B0"%string)
         [mkTx (bs "txhash-000001"%string) ex_A ex_B 100000 2 (bs "coins"%string) KTransfer 7;
-         mkTx (bs "txhash-000002"%string) ex_B ex_B 100000 2 (bs "none"%string) KNoLocal 0]
+         mkTx (bs "txhash-000002"%string) ex_B ex_B 100000 2 (bs "none"%string) KNoLocal 0;
+         mkTx (bs "txhash-000003"%string) ex_B ex_A 100000 1 (bs "coins"%string) KTransfer 9]
         ex_S1 (Some ex_S0) [(bs "mavl-coins-bty-A"%string, Some (bs "acc"%string)); (bs "k2"%string, None)].
 
 Lemma main_hyps_satisfiable : exists kA kD,
   sorted ex_m /\ counters_wf ex_m = true /\ fresh ex_cfg ex_m ex_b = true /\
   exec_add ex_cfg ex_m ex_b = Some kA /\ exec_del ex_cfg (write_all kA ex_m) ex_b = Some kD /\
-  all_local_ok ex_b = true /\ (length kA > 10)%nat /\ write_all kA ex_m <> ex_m /\
+  all_local_ok ex_b = false /\ (length kA > 10)%nat /\ write_all kA ex_m <> ex_m /\
   write_all kD (write_all kA ex_m) <> ex_m.
 Proof.
   destruct (exec_add ex_cfg ex_m ex_b) as [kA|] eqn:EA; [|vm_compute in EA; discriminate].
